@@ -5,6 +5,7 @@
 package c05
 
 import (
+	"unicode/utf8"
 	"bufio"
 	"encoding/hex"
 	"encoding/json"
@@ -271,6 +272,37 @@ func checkOptions(ob *ctorObs, r *core.Rng) {
 	for k := range got {
 		if _, ok := jm[k]; !ok {
 			ob.bad("json-key", "option combination: JSON lacks key %q", k)
+		}
+	}
+	// an event keeps being written to after it has been serialised once: the bus hands one event to several
+	// channels, and a later channel's wrapper stores its token before serialising the event again
+	for round := 0; round < 2; round++ {
+		late := optPool(r)
+		for _, i := range r.Perm(len(late))[:r.Range(1, 3)] {
+			event.Apply(e, late[i].opt)
+			model[late[i].key] = late[i].val
+		}
+		tok := "tok-" + r.Alnum(6)
+		event.Apply(e, event.Token(tok))
+		model["token"] = tok
+		jb, err := json.Marshal(e)
+		if err != nil {
+			ob.bad("json", "second serialisation failed: %v", err)
+			return
+		}
+		var jm map[string]interface{}
+		json.Unmarshal(jb, &jm)
+		for k, v := range model {
+			jv, ok := jm[k]
+			if !ok {
+				ob.bad("json-key-after-reserialise", "key %q stored after the event had been serialised once is missing from its JSON", k)
+				continue
+			}
+			if sv, isStr := v.(string); isStr && utf8.ValidString(sv) && k != "date" {
+				if js, _ := jv.(string); js != sv {
+					ob.bad("json-value-after-reserialise", "key %q: JSON has %q, the event holds %q (stored after an earlier serialisation)", k, js, sv)
+				}
+			}
 		}
 	}
 }
